@@ -28,10 +28,10 @@ type Lie struct {
 
 // HS lets a run force value-dependent corners of the key exchange (C06).
 type HS struct {
-	ServerNonce func() []byte              // 16 bytes
-	PQ          func() (p, q *big.Int)     // two primes
-	A           func() *big.Int            // server DH exponent
-	AcceptA     func(ga, a *big.Int) bool  // re-draw a until accepted (e.g. g_a with a leading zero byte)
+	ServerNonce func() []byte             // 16 bytes
+	PQ          func() (p, q *big.Int)    // two primes
+	A           func() *big.Int           // server DH exponent
+	AcceptA     func(ga, a *big.Int) bool // re-draw a until accepted (e.g. g_a with a leading zero byte)
 	AcceptDone  func(authKey, nonceHash []byte) bool
 	Lie         *Lie
 	PadByte     byte
@@ -55,13 +55,13 @@ type Server struct {
 	Ln   net.Listener
 	Priv *rsa.PrivateKey
 
-	mu      sync.Mutex
-	Keys    map[string][]byte // key id -> auth key (may be shared between servers: migration)
-	Salt    int64
-	Conns   []*Conn
-	HS      HS
-	lastID  int64
-	nconn   int
+	mu     sync.Mutex
+	Keys   map[string][]byte // key id -> auth key (may be shared between servers: migration)
+	Salt   int64
+	Conns  []*Conn
+	HS     HS
+	lastID int64
+	nconn  int
 
 	// callbacks (called from connection goroutines, serialised by the harness's own lock)
 	OnConn   func(c *Conn)
